@@ -3,7 +3,7 @@
      bin <op> <a> <b>        op in add sub mul band bor bxor idiv imod shl shr lt le eq ne
                              -> "rt=<outcome> lua=<outcome>"   outcome = v:<hex> | panic | ub
      un <op> <a>             op in unm bnot
-     mix <op> <i> <float>    op in lt_if le_if lt_fi le_fi eq_if ; float = nan | +inf | -inf | fin:<m>:<e>
+     mix <op> <i> <float>    op in lt_if le_if lt_fi le_fi eq_if gt_if ge_if ne_if ; float = nan | +inf | -inf | fin:<m>:<e>
                              -> "rt=<0|1> lua=<0|1> exact=<0|1>"
      rne <i>                 -> hex of rne53 i
      for <a> <b> <s> <cap>   -> "lua=<v,v,..>/<ended> nelua=<v,v,..>/<ended>/<ub>"
@@ -134,6 +134,8 @@ let () =
                 | "le" -> (rt_le a b, obool (lle a b))
                 | "eq" -> (rt_eq a b, obool (Z.eqb a b))
                 | "ne" -> (rt_ne a b, obool (not (Z.eqb a b)))
+                | "gt" -> (rt_lt b a, obool (llt b a))      (* a > b is b < a (lvm.c: OP_LT with swapped operands) *)
+                | "ge" -> (rt_le b a, obool (lle b a))
                 | s -> failwith ("op " ^ s)) in
              "rt=" ^ out_s rt ^ " lua=" ^ out_s lua
            | "un" ->
@@ -153,6 +155,9 @@ let () =
                 | "lt_fi" -> (rt_lt_fi f i, lua_lt_fi f i, exact_lt_fi f i)
                 | "le_fi" -> (rt_le_fi f i, lua_le_fi f i, exact_le_fi f i)
                 | "eq_if" -> (rt_eq_if i f, lua_eq_if i f, exact_eq_if i f)
+                | "gt_if" -> (rt_lt_fi f i, lua_lt_fi f i, exact_lt_fi f i)      (* i > f is f < i *)
+                | "ge_if" -> (rt_le_fi f i, lua_le_fi f i, exact_le_fi f i)
+                | "ne_if" -> (not (rt_eq_if i f), not (lua_eq_if i f), not (exact_eq_if i f))
                 | s -> failwith ("op " ^ s)) in
              "rt=" ^ b2s rt ^ " lua=" ^ b2s lua ^ " exact=" ^ b2s ex
            | "rne" -> hex_of_z (rne53 (z 0))
@@ -164,6 +169,24 @@ let () =
                       | Some (vs, ended) -> zl vs ^ "/" ^ b2s ended) in
              let ((vs, ended), ub) = nelua_prefix cap a b s in
              "lua=" ^ l ^ " nelua=" ^ zl vs ^ "/" ^ b2s ended ^ "/" ^ b2s ub
+           | "vd" ->
+             (* vd <slot> ..   slot = (u|d)(N | C<e> | P<e> | R<k>:<e>): order of the effects of a declaration *)
+             let nat s = nat_of_int (int_of_string s) in
+             let slot a =
+               let used = (a.[0] = 'u') in
+               let rest = String.sub a 2 (String.length a - 2) in
+               let src = (match a.[1] with
+                 | 'N' -> VNone
+                 | 'C' -> VPlain (nat rest, false)
+                 | 'P' -> VPlain (nat rest, true)
+                 | 'R' -> (match String.split_on_char ':' rest with
+                           | [ k; e ] -> VRet (nat k, nat e) | _ -> failwith "slot")
+                 | _ -> failwith "slot") in
+               { s_used = used; s_src = src } in
+             let l = List.map slot args in
+             let show x = String.concat "," (List.map (fun n -> string_of_int (int_of_nat n)) x) in
+             Printf.sprintf "wf=%d dce=%s nodce=%s src=%s" (if vd_wf l then 1 else 0)
+               (show (vd_effects vardecl_policy false l)) (show (vd_effects vardecl_policy true l)) (show (src_effects l))
            | "parse" ->
              let ts = List.map tok_of args in
              "nelua=" ^ pres (climb nelua_table ts) ^ " lua=" ^ pres (climb lua_table ts)
